@@ -80,6 +80,12 @@ def gen_case(rng, thorough, inside):
             rule = rule_for(rng, d, idxok=inside, nact=1)
             if not inside and rng.random() < 0.2:
                 rule["when"]["pattern"] = rng.choice([{}, {"a": {}}, {"b": []}, {"a": [True, False]}, {"a": [None]}])
+            if rng.random() < 0.08 and "when" in rule:
+                # a `when` pattern may use the names ?location / ?ruleId / ?event for its own variables: the match's value stays
+                txt = json.dumps(rule["when"]["pattern"])
+                vs = sorted(set(v for v in gen.VARS if '"%s"' % v in txt))
+                if vs:
+                    rule["when"]["pattern"] = json.loads(txt.replace('"%s"' % rng.choice(vs), '"%s"' % rng.choice(["?location", "?ruleId", "?event"])))
             if rng.random() < 0.07:
                 rule = {"schedule": "+1h", "action": action(rng, 0)}   # scheduled rules are never dispatched for events
             ops.append({"op": "addRule", "loc": loc, "id": rng.choice(RIDS), "rule": rule})
